@@ -323,6 +323,7 @@ class Model(IOSpecOperation, EditableParent):
 
     def rename(self, name, rename_old=False):
         """Rename the model itself"""
+        self._impl.system.check_open(self._impl)
         self._impl.system.rename_model(
             new_name=name, old_name=self.name, rename_old=rename_old)
 
